@@ -24,6 +24,7 @@ class NodeParser(PushParser):
     Args:
         context: The models context instance
         handler: The xml handler class
+        parent_ns: The namespace the root class inherits, if it has none
 
     Attributes:
         ns_map: The parsed namespace prefix-URI map
@@ -31,6 +32,7 @@ class NodeParser(PushParser):
 
     context: XmlContext = field(default_factory=XmlContext)
     handler: type[XmlHandler] = field(default=EventsHandler)
+    parent_ns: str | None = field(default=None, kw_only=True)
 
     def parse(
         self,
@@ -106,7 +108,7 @@ class NodeParser(PushParser):
             if clazz is None:
                 raise ParserError(f"No class found matching root: {qname}")
 
-            meta = self.context.fetch(clazz, xsi_type=xsi_type)
+            meta = self.context.fetch(clazz, self.parent_ns, xsi_type)
             if xsi_type is None or meta.qname == qname:
                 derived_factory = None
             else:
